@@ -228,10 +228,39 @@ def audit_case(c, failures, stats):
                     break
 
 
+PAIRS = [("relocation", "relocated_crops", "no_resilient_foods"),
+         ("expansion", "all_resilient_foods_and_more_area", "all_resilient_foods")]
+
+
+def audit_real_pair(pair, failures, stats):
+    """real country row through the real option layer: same options, relocation (or expansion) on vs off"""
+    import c08_impl
+    for what, scen_on, scen_off in PAIRS:
+        runs = []
+        for scen in (scen_on, scen_off):
+            opt = dict(pair["options"], scenario=scen)
+            runs.append(c08_impl.run_case({"kind": "real", "iso3": pair["iso3"], "options": opt}))
+        stats["checks"] += 1
+        if not all(r.get("crops") for r in runs):
+            stats["real_pairs_rejected"] += 1
+            continue
+        stats["real_pairs"] += 1
+        on, off = (r["crops"]["obs"]["prod"] for r in runs)
+        low = [m for m in range(min(len(on), len(off))) if on[m] < off[m] * (1 - 1e-12) - 1e-300]
+        if low:
+            m = low[0]
+            failures.append({"kind": what + "-lowers-output", "kind_of_failure": what + "-lowers-output", "real_pair": pair,
+                             "what": f"{pair['iso3']} {pair['options'].get('crop_disruption')} CROP_PRODUCTION_MULTIPLIER="
+                                     f"{pair['options'].get('CROP_PRODUCTION_MULTIPLIER')}: scenario {scen_on} gives {on[m]!r} in month {m}, "
+                                     f"{scen_off} gives {off[m]!r} ({len(low)} of {len(on)} months lower)", "month": m})
+
+
 def run(payload):
     failures = []
     stats = {"cases": 0, "rejected": 0, "distinct": 0, "checks": 0, "pw_samples": 0, "tiny": 0, "relocation_pairs": 0,
-             "expansion_pairs": 0}
+             "expansion_pairs": 0, "real_pairs": 0, "real_pairs_rejected": 0}
+    for pair in payload.get("real_pairs", []):
+        audit_real_pair(pair, failures, stats)
     for c in payload["cases"]:
         audit_case(c, failures, stats)
     stats["failures"] = failures[:40]
